@@ -54,7 +54,7 @@ func C19(c *fw.Ctx) {
 		c.Violate(r)
 	}
 	// ---- (1) command lines, in-process through main ----------------------
-	names := []string{"a.bn", "a.BN", "a.bnx", "a.txt", "a", "a.bn.txt", ".bn", "a.b.bn", "dir.bn/a", "sub/a.bn", "missing.bn", "a.Bn", "a.bn ", "bn", "a.bn/"}
+	names := []string{"missing.txt", "nosuch", "missing.bnx", "a.bn", "a.BN", "a.bnx", "a.txt", "a", "a.bn.txt", ".bn", "a.b.bn", "dir.bn/a", "sub/a.bn", "missing.bn", "a.Bn", "a.bn ", "bn", "a.bn/"}
 	for _, name := range names {
 		for extra := 0; extra <= 2; extra++ {
 			if !c.Mine() {
@@ -65,7 +65,7 @@ func C19(c *fw.Ctx) {
 				args = append(args, fmt.Sprintf("x%d", i))
 			}
 			files := map[string]string{}
-			if name != "missing.bn" {
+			if !strings.HasPrefix(name, "missing") && name != "nosuch" {
 				files[name] = ran
 			}
 			o := h.RunFile("", h.Opts{Args: args, Files: files})
@@ -293,6 +293,7 @@ func C19(c *fw.Ctx) {
 		dir, _ := os.MkdirTemp(os.Getenv("VERIF_SCRATCH"), "c19.")
 		defer os.RemoveAll(dir)
 		os.MkdirAll(filepath.Join(dir, "d.bn"), 0o755)
+		os.MkdirAll(filepath.Join(dir, "d.txt"), 0o755)
 		os.MkdirAll(filepath.Join(dir, "sub"), 0o755)
 		os.MkdirAll(filepath.Join(dir, "dir.bn"), 0o755)
 		for _, n := range []string{"a.bn", "a.BN", "a.bnx", "a.txt", "a", "a.bn.txt", ".bn", "a.b.bn", "dir.bn/a", "sub/a.bn"} {
@@ -306,7 +307,7 @@ func C19(c *fw.Ctx) {
 		cases := []ccase{
 			{[]string{"a.bn"}, "run", ""}, {[]string{".bn"}, "run", ""}, {[]string{"a.b.bn"}, "run", ""}, {[]string{"sub/a.bn"}, "run", ""}, {[]string{"./a.bn"}, "run", ""},
 			{[]string{"a.BN"}, "64", ""}, {[]string{"a.bnx"}, "64", ""}, {[]string{"a.txt"}, "64", ""}, {[]string{"a"}, "64", ""}, {[]string{"a.bn.txt"}, "64", ""}, {[]string{"dir.bn/a"}, "64", ""},
-			{[]string{"a.bn", "x"}, "64", ""}, {[]string{"a.bn", "x", "y"}, "64", ""}, {[]string{"a.txt", "a.bn"}, "64", ""},
+			{[]string{"a.bn", "x"}, "64", ""}, {[]string{"a.bn", "x", "y"}, "64", ""}, {[]string{"a.txt", "a.bn"}, "64", ""}, {[]string{"missing.txt"}, "64", ""}, {[]string{"nosuch"}, "64", ""}, {[]string{"d.txt"}, "64", ""}, {[]string{"nodir/a.txt"}, "64", ""},
 			{[]string{"missing.bn"}, "nonzero", ""}, {[]string{"d.bn"}, "nonzero", ""}, {[]string{"nodir/a.bn"}, "nonzero", ""},
 		}
 		for _, cs := range cases {
